@@ -203,7 +203,7 @@ def classify(gen: Generated, result, diags, other, rc):
     return dict(failures=failures, undecided=undecided, functions=functions, verified=verified, errors=errors, solver_time_s=solver)
 
 
-def run_unit(unit, repo, canary=False, rlimit=None, tag=None, threads=None):
+def run_unit(unit, repo, canary=False, rlimit=None, tag=None, threads=None, extra=None):
     """Generate + verify one unit.  Returns (gen|None, res dict)."""
     tmpl = os.path.join(VERIF, "units", unit + ".vt")
     os.makedirs(BUILD, exist_ok=True)
@@ -222,7 +222,7 @@ def run_unit(unit, repo, canary=False, rlimit=None, tag=None, threads=None):
         m = _re.search(r"^// rlimit: (\d+)", open(tmpl, encoding="utf-8").read(), _re.M)
         if m:
             rlimit = int(m.group(1))
-    cmd, out, err, rc, wall = run_verus(path, rlimit=rlimit, threads=threads)
+    cmd, out, err, rc, wall = run_verus(path, rlimit=rlimit, threads=threads, extra=extra)
     result, diags, other = parse_outputs(out, err)
     res = classify(gen, result, diags, other, rc)
     res["wall_s"] = wall
